@@ -93,6 +93,8 @@ def Guard.check (g : Guard) (env : List (String × Val)) : Except Err Unit :=
   | some (.num q) => if g.cmp.holds q g.bound then .error (errOfExc g.exc) else .ok ()
   | some (.str _) => .error .typeError       -- '<' not supported between 'str' and 'int'
   | some (.cplx _ _) => .error .typeError    -- '<' not supported between 'complex' and 'int'
+  | some .inf =>                             -- inf compared with a finite bound
+    if (match g.cmp with | .gt | .ge | .ne => true | _ => false) then .error (errOfExc g.exc) else .ok ()
   | none => .error (.other "unbound guard parameter")
 
 def VE.eval (env : List (String × Val)) : VE → Except Err Val
@@ -102,11 +104,13 @@ def VE.eval (env : List (String × Val)) : VE → Except Err Val
   | .re p => match env.lookup p with
     | some (.num q) => .ok (.num q)
     | some (.cplx a _) => .ok (.num a)
+    | some .inf => .ok .inf
     | some (.str _) => .error .attributeError
     | none => .error (.other "unbound value parameter")
   | .im p => match env.lookup p with
     | some (.num _) => .ok (.num 0)
     | some (.cplx _ b) => .ok (.num b)
+    | some .inf => .ok (.num 0)
     | some (.str _) => .error .attributeError
     | none => .error (.other "unbound value parameter")
   | .lit q => .ok (.num q)
@@ -159,6 +163,7 @@ def Component.float (c : Component) (k : String) : Except Err Rat :=
   | some (.num q) => .ok q
   | some (.str _) => .error .valueError     -- could not convert string to float
   | some (.cplx _ _) => .error .typeError
+  | some .inf => .error (.other "non-finite value outside the model")   -- see `EE.eval` for the one modelled use
 
 def RE.eval (c : Component) (w wres : Rat) : RE → Except Err Rat
   | .key k => c.float k
@@ -181,7 +186,14 @@ def CE.eval (trig : Trig) (c : Component) (w wres : Rat) : CE → Except Err GQ
 
 /-- element factory call ↦ (`type` string, record) -/
 def EE.eval (trig : Trig) (c : Component) (w wres : Rat) : EE → Except Err (String × Elem GQ)
-  | .resistor R => do pure ("resistor", .norton ⟨← R.eval c w wres, 0⟩ 0)
+  | .resistor R =>
+    -- open switch: `elm.resistor(id, inf)` = `NortenElement(Z=inf, V=0)`.  Its derived values are
+    -- `Y = 1/inf = 0`, `I = 0/inf = 0`, `Z = inf`, and every predicate of elements.py answers as for
+    -- the record `(Y = 0, I = 0)`: `is_ideal_current_source`, `is_open_circuit` true, all others
+    -- false.  The shared `Elem` cannot hold `Z = inf`; the model stores that Thevenin record (the
+    -- `type` string stays "resistor").
+    if (match R with | .key k => c.get? k == some Val.inf | _ => false) then pure ("resistor", .thevenin 0 0)
+    else do pure ("resistor", .norton ⟨← R.eval c w wres, 0⟩ 0)
   | .conductor G => do pure ("conductor", .thevenin ⟨← G.eval c w wres, 0⟩ 0)
   | .impedance Z => do pure ("impedance", .norton (← Z.eval trig c w wres) 0)
   | .admittance Y => do pure ("admittance", .thevenin (← Y.eval trig c w wres) 0)
@@ -218,6 +230,7 @@ def preRead (c : Component) (strKeys : List String) (reads : List String) : Exce
       match c.get? k with
       | some _ => .ok ()
       | none => .error .keyError
+    else if c.get? k == some Val.inf then .ok ()     -- `float(inf)` succeeds
     else do let _ ← c.float k
 
 /-- translators without recursion: `plain` and `gated` bodies -/
